@@ -21,6 +21,7 @@ func main() {
 	testdata := flag.String("testdata", "internal/testdata", "directory with the base .proto files")
 	inputsPath := flag.String("inputs", "", "calls: file receiving one line per distinct trace (id, input, multiplicity)")
 	workers := flag.Int("workers", 8, "parallel parse workers")
+	modes := flag.String("modes", "tolerant,abort", "calls: reporter modes to record per input")
 	noRef := flag.Bool("noref", false, "units: skip the cross-check of the driver's reference functions (binding self-test)")
 	flag.Parse()
 	in := bufio.NewScanner(os.Stdin)
@@ -32,7 +33,7 @@ func main() {
 	case "units":
 		err = runUnits(in, out, *noRef)
 	case "calls":
-		err = runCalls(in, out, *testdata, *inputsPath, *workers)
+		err = runCalls(in, out, *testdata, *inputsPath, *workers, *modes)
 	case "spans":
 		err = runSpans(in, out, *testdata, *workers)
 	case "stat":
